@@ -1092,9 +1092,12 @@ class slice(Stream):
 
     def update(self, x, who=None, metadata=None):
         ret = None
-        if self.state >= self.star and (self.state - self.star) % self.step == 0:
-            ret = self._emit(x, metadata=metadata)
+        # count the element before handing it on: with a feedback edge the
+        # emission below can bring the next element here before it returns
+        state = self.state
         self.state += 1
+        if state >= self.star and (state - self.star) % self.step == 0:
+            ret = self._emit(x, metadata=metadata)
         self._check_end()
         return ret
 
